@@ -406,3 +406,99 @@ def all_type_exprs(prog):
 
 def valid_program(rng, **kw):
     return Gen(rng, **kw).program()
+
+
+# ---------------------------------------------------------------------------------------------------------------
+# doc comments (well-formed ones; the defect catalogue lives with C16)
+
+WORDS = ["the", "value", "of", "this", "element;", "see", "also:", "(optional)", "é", "中文", "x=1", "a-b", "100%", "q.", "it's",
+         "#tag", "a{b", "c}d", "semi;colon", "under_score", "\U0001F600"]
+
+
+def linkable_entities(prog):
+    from .model import Param, children
+    out = []
+
+    def walk(e):
+        if not isinstance(e, Param):
+            out.append(e)
+        for c in children(e):
+            walk(c)
+    for f in prog.files:
+        for d in f.defs:
+            walk(d)
+    return out
+
+
+def link_to(rng, table, source, target):
+    """A Link whose spelling designates `target` when searched outward from `source`'s own scoped name."""
+    from .model import Link
+    full = target.scoped()
+    parts = full.split("::")
+    cands = ["::" + full] + ["::".join(parts[i:]) for i in range(len(parts))]
+    good = [s for s in cands if resolve.lookup(table, s, source.scoped()) is target]
+    return Link(rng.choice(good), target) if good else None
+
+
+def text_piece(rng):
+    return " ".join(rng.choice(WORDS) for _ in range(rng.randint(1, 4)))
+
+
+def message_line(rng, table, source, targets, allow_empty=False):
+    """One line as a list of components (str | Link); never starts with white space, '@' or a link preceded by white space."""
+    if allow_empty and rng.random() < 0.1:
+        return []
+    comps = []
+    n = rng.randint(1, 3)
+    for i in range(n):
+        if targets and rng.random() < 0.3:
+            l = link_to(rng, table, source, rng.choice(targets))
+            if l is not None:
+                if comps and isinstance(comps[-1], str):
+                    comps[-1] += " "
+                comps.append(l)
+                continue
+        piece = text_piece(rng)
+        if comps:
+            piece = " " + piece
+        if comps and isinstance(comps[-1], str):
+            comps[-1] += piece
+        else:
+            comps.append(piece)
+    return comps
+
+
+def add_comments(prog, rng, density=0.5, indent_choices=(" ", " ", "  ", "\t", "")):
+    from .model import Comment, Operation, Param, Alias as A, Custom as C, Enum as E, Enumerator as En, Field as F, Interface as I, Struct as S
+    table = prog.table()
+    targets = linkable_entities(prog)
+    for e in targets:
+        if rng.random() > density:
+            continue
+        indent = rng.choice(indent_choices)
+        overview = None
+        if rng.random() < 0.8:
+            overview = [message_line(rng, table, e, targets, allow_empty=(k > 0)) for k in range(rng.randint(1, 3))]
+            if not overview[-1]:
+                overview.append(message_line(rng, table, e, targets))
+        params, returns = [], []
+        if isinstance(e, Operation):
+            names = [p.id for p in e.params]
+            rng.shuffle(names)
+            for n in names[:rng.randint(0, len(names))]:
+                params.append((n, [message_line(rng, table, e, targets) for _ in range(rng.randint(1, 2))]))
+            if e.returns and rng.random() < 0.6:
+                if e.return_tuple:
+                    rn = [p.id for p in e.returns]
+                    for n in rn[:rng.randint(1, len(rn))]:
+                        returns.append((n, [message_line(rng, table, e, targets)]))
+                else:
+                    returns.append((None, [message_line(rng, table, e, targets) for _ in range(rng.randint(1, 2))]))
+        see = []
+        for _ in range(rng.choice([0, 0, 1, 2])):
+            l = link_to(rng, table, e, rng.choice(targets))
+            if l is not None:
+                see.append(l)
+        if overview is None and not params and not returns and not see:
+            overview = [message_line(rng, table, e, targets)]
+        e.comment = Comment(overview, params, returns, see, indent)
